@@ -1,4 +1,5 @@
-From PV Require Import Base.MachineInt Model.Znx Model.Limbs Model.Ring Model.Poly.
+(* C09 items 1-2: znx_rotate is multiplication by X^p in Z[X]/(X^n+1); Z/2n acts. *)
+From PV Require Import Base.MachineInt Model.Znx Model.Limbs Model.Ring Model.Poly Proofs.C09Lists.
 Open Scope Z_scope.
 
 Lemma vneg_length w l : length (vneg w l) = length l.
@@ -10,3 +11,292 @@ Proof.
   set (k := Z.to_nat _).
   destruct (_ <? _); rewrite app_length, ?vneg_length, firstn_length, skipn_length; lia.
 Qed.
+
+(* ---------- word negation ---------- *)
+Lemma wneg_range w x : 1 <= w -> in_range w (wneg w x).
+Proof. intros; apply wrap_range; auto. Qed.
+
+Lemma wneg_involutive w x : 1 <= w -> in_range w x -> wneg w (wneg w x) = x.
+Proof.
+  intros Hw Hx. unfold wneg.
+  rewrite <- (wrap_id w x Hw Hx) at 2.
+  apply wrap_eq_mod; auto.
+  pose proof (pow2_pos w ltac:(lia)) as Hp.
+  destruct (wrap_exists w (- x) Hw) as [q Hq]. rewrite Hq.
+  replace (- (- x - q * 2 ^ w)) with (x + q * 2 ^ w) by ring.
+  apply Z.mod_add. lia.
+Qed.
+
+Lemma wneg_0 w : 1 <= w -> wneg w 0 = 0.
+Proof.
+  intros Hw. unfold wneg. apply wrap_id; auto.
+  unfold in_range. pose proof (pow2_pos (w - 1) ltac:(lia)). lia.
+Qed.
+
+(* ---------- the negacyclic extension ---------- *)
+Lemma ext_at w (a : list Z) (k q r : Z) :
+  k = q * Z.of_nat (length a) + r -> 0 <= r < Z.of_nat (length a) ->
+  ext w a k = if Z.even q then nthZ a (Z.to_nat r) else wneg w (nthZ a (Z.to_nat r)).
+Proof.
+  intros -> Hr. unfold ext. cbv zeta.
+  set (n := Z.of_nat (length a)) in *.
+  assert (Hq : (q * n + r) / n = q).
+  { rewrite Z.div_add_l by lia. rewrite Z.div_small by lia. lia. }
+  assert (Hm : (q * n + r) mod n = r).
+  { rewrite Z.add_comm, Z.mod_add by lia. apply Z.mod_small; lia. }
+  rewrite Hq, Hm. reflexivity.
+Qed.
+
+Lemma ext_at_nat w (a : list Z) (k q : Z) (i : nat) :
+  k = q * Z.of_nat (length a) + Z.of_nat i -> (i < length a)%nat ->
+  ext w a k = if Z.even q then nthZ a i else wneg w (nthZ a i).
+Proof.
+  intros Hk Hi. rewrite (ext_at w a k q (Z.of_nat i)) by (auto; lia).
+  rewrite Nat2Z.id. reflexivity.
+Qed.
+
+Lemma ext_small w (a : list Z) (i : nat) : (i < length a)%nat -> ext w a (Z.of_nat i) = nthZ a i.
+Proof. intros Hi. rewrite (ext_at_nat w a _ 0 i) by (auto; lia). reflexivity. Qed.
+
+(* decomposition of any exponent *)
+Lemma exp_decomp (n k : Z) : 0 < n -> exists q (i : nat), k = q * n + Z.of_nat i /\ 0 <= Z.of_nat i < n.
+Proof.
+  intros Hn. exists (k / n), (Z.to_nat (k mod n)).
+  pose proof (Z.mod_pos_bound k n Hn) as Hb.
+  rewrite Z2Nat.id by lia. split; [|lia].
+  pose proof (Z.div_mod k n ltac:(lia)). lia.
+Qed.
+
+Lemma even_add_mul2 q s : Z.even (q + 2 * s) = Z.even q.
+Proof. rewrite Z.even_add_mul_2. reflexivity. Qed.
+
+(* ext has period 2n *)
+Lemma ext_period w (a : list Z) (k s : Z) :
+  (0 < length a)%nat -> ext w a (k + s * (2 * Z.of_nat (length a))) = ext w a k.
+Proof.
+  intros Hn. set (n := Z.of_nat (length a)).
+  destruct (exp_decomp n k ltac:(lia)) as [q [i [Hk Hi]]].
+  rewrite (ext_at_nat w a k q i) by (auto; lia).
+  rewrite (ext_at_nat w a (k + s * (2 * n)) (q + 2 * s) i) by (fold n; lia).
+  rewrite even_add_mul2. reflexivity.
+Qed.
+
+(* shifting the exponent by a multiple of n: sign (-1)^q *)
+Lemma ext_shift w (a : list Z) (k q : Z) :
+  1 <= w -> Forall (in_range w) a -> (0 < length a)%nat ->
+  ext w a (k + q * Z.of_nat (length a)) = if Z.even q then ext w a k else wneg w (ext w a k).
+Proof.
+  intros Hw Hr Hn. set (n := Z.of_nat (length a)).
+  destruct (exp_decomp n k ltac:(lia)) as [q0 [i [Hk Hi]]].
+  rewrite (ext_at_nat w a k q0 i) by (auto; lia).
+  rewrite (ext_at_nat w a (k + q * n) (q0 + q) i) by (fold n; lia).
+  rewrite Z.even_add.
+  destruct (Z.even q0), (Z.even q); cbn [Bool.eqb]; try reflexivity.
+  symmetry; apply wneg_involutive; auto. apply Forall_nthZ; auto; lia.
+Qed.
+
+Lemma ext_range w (a : list Z) k :
+  1 <= w -> Forall (in_range w) a -> (0 < length a)%nat -> in_range w (ext w a k).
+Proof.
+  intros Hw Hr Hn. set (n := Z.of_nat (length a)).
+  destruct (exp_decomp n k ltac:(lia)) as [q [i [Hk Hi]]].
+  rewrite (ext_at_nat w a k q i) by (auto; lia).
+  destruct (Z.even q); [apply Forall_nthZ; auto; lia | apply wneg_range; auto].
+Qed.
+
+(* two lists of the same length with the same extension are equal *)
+Lemma ext_inj w (a b : list Z) :
+  length a = length b -> (forall k, ext w a k = ext w b k) -> a = b.
+Proof.
+  intros Hl H. apply nthZ_ext; auto. intros i Hi.
+  rewrite <- (ext_small w a i), <- (ext_small w b i) by lia. apply H.
+Qed.
+
+(* ---------- monomial_mul ---------- *)
+Lemma monomial_mul_length w p a : length (monomial_mul w p a) = length a.
+Proof. unfold monomial_mul. apply map_seq_length. Qed.
+
+Lemma monomial_mul_nth w p a i :
+  (i < length a)%nat -> nthZ (monomial_mul w p a) i = ext w a (Z.of_nat i - p).
+Proof. intros Hi. unfold monomial_mul. rewrite nthZ_map_seq by auto. reflexivity. Qed.
+
+Lemma monomial_mul_range w p a :
+  1 <= w -> Forall (in_range w) a -> Forall (in_range w) (monomial_mul w p a).
+Proof.
+  intros Hw Hr. apply Forall_of_nthZ. intros i Hi. rewrite monomial_mul_length in Hi.
+  rewrite monomial_mul_nth by auto. apply ext_range; auto. lia.
+Qed.
+
+(* the extension of X^p * a is the shifted extension of a *)
+Lemma ext_monomial_mul w p a k :
+  1 <= w -> Forall (in_range w) a ->
+  ext w (monomial_mul w p a) k = ext w a (k - p).
+Proof.
+  intros Hw Hr.
+  destruct (Nat.eq_dec (length a) 0) as [H0|H0].
+  { destruct a; [|discriminate]. unfold ext, monomial_mul; cbn [length seq map Z.of_nat].
+    rewrite !Zdiv_0_r. cbn [Z.even]. unfold nthZ.
+    destruct (Z.to_nat _), (Z.to_nat _); reflexivity. }
+  set (n := Z.of_nat (length a)).
+  destruct (exp_decomp n k ltac:(lia)) as [q [i [Hk Hi]]].
+  rewrite (ext_at_nat w (monomial_mul w p a) k q i)
+    by (rewrite monomial_mul_length; fold n; auto; lia).
+  rewrite monomial_mul_nth by lia.
+  replace (k - p) with ((Z.of_nat i - p) + q * n) by lia.
+  unfold n. rewrite ext_shift by (auto; lia). reflexivity.
+Qed.
+
+Lemma monomial_mul_compose w p q a :
+  1 <= w -> Forall (in_range w) a ->
+  monomial_mul w p (monomial_mul w q a) = monomial_mul w (p + q) a.
+Proof.
+  intros Hw Hr. unfold monomial_mul at 1 3. rewrite monomial_mul_length.
+  apply map_seq_ext. intros i Hi.
+  rewrite ext_monomial_mul by auto. f_equal. lia.
+Qed.
+
+Lemma monomial_mul_0 w a : monomial_mul w 0 a = a.
+Proof.
+  apply nthZ_ext; [apply monomial_mul_length|].
+  intros i Hi. rewrite monomial_mul_length in Hi. rewrite monomial_mul_nth by auto.
+  rewrite Z.sub_0_r. apply ext_small; auto.
+Qed.
+
+Lemma monomial_mul_period w p s a :
+  monomial_mul w (p + s * (2 * Z.of_nat (length a))) a = monomial_mul w p a.
+Proof.
+  unfold monomial_mul. apply map_seq_ext. intros i Hi.
+  replace (Z.of_nat i - (p + s * (2 * Z.of_nat (length a))))
+    with ((Z.of_nat i - p) + (- s) * (2 * Z.of_nat (length a))) by ring.
+  apply ext_period. lia.
+Qed.
+
+Lemma monomial_mul_2n_id w a : monomial_mul w (2 * Z.of_nat (length a)) a = a.
+Proof.
+  replace (2 * Z.of_nat (length a)) with (0 + 1 * (2 * Z.of_nat (length a))) by ring.
+  rewrite monomial_mul_period. apply monomial_mul_0.
+Qed.
+
+Lemma monomial_mul_mod w p a :
+  monomial_mul w (p mod (2 * Z.of_nat (length a))) a = monomial_mul w p a.
+Proof.
+  destruct (Nat.eq_dec (length a) 0) as [H0|H0].
+  { destruct a; [|discriminate]. reflexivity. }
+  set (n2 := 2 * Z.of_nat (length a)).
+  pose proof (Z.div_mod p n2 ltac:(lia)) as Hd.
+  replace p with (p mod n2 + (p / n2) * n2) at 2 by lia.
+  unfold n2. rewrite monomial_mul_period. reflexivity.
+Qed.
+
+Lemma monomial_mul_n_neg w a :
+  monomial_mul w (Z.of_nat (length a)) a = map (wneg w) a.
+Proof.
+  apply nthZ_ext; [rewrite monomial_mul_length, map_length; reflexivity|].
+  intros i Hi. rewrite monomial_mul_length in Hi. rewrite monomial_mul_nth by auto.
+  rewrite (ext_at_nat w a _ (-1) i) by (auto; lia).
+  rewrite nthZ_map by auto. reflexivity.
+Qed.
+
+(* ---------- item 1: the code's split / negate / copy is X^p * a ---------- *)
+Lemma nthZ_app_l (l1 l2 : list Z) i : (i < length l1)%nat -> nthZ (l1 ++ l2) i = nthZ l1 i.
+Proof. intros; unfold nthZ; apply app_nth1; auto. Qed.
+Lemma nthZ_app_r (l1 l2 : list Z) i : (length l1 <= i)%nat -> nthZ (l1 ++ l2) i = nthZ l2 (i - length l1).
+Proof. intros; unfold nthZ; apply app_nth2; auto. Qed.
+
+Lemma nthZ_firstn (l : list Z) s i : (i < s)%nat -> nthZ (firstn s l) i = nthZ l i.
+Proof.
+  revert s i; induction l as [|h t IH]; intros [|s] [|i] Hi; cbn [firstn]; try reflexivity; try lia.
+  unfold nthZ in *; cbn [nth]. apply IH; lia.
+Qed.
+Lemma nthZ_skipn (l : list Z) s i : nthZ (skipn s l) i = nthZ l (s + i).
+Proof.
+  revert s; induction l as [|h t IH]; intros [|s]; cbn [skipn]; try reflexivity.
+  - unfold nthZ. destruct i; reflexivity.
+  - unfold nthZ in *. cbn [Nat.add nth]. apply IH.
+Qed.
+
+Lemma rotate_nth w p (a : list Z) i :
+  (i < length a)%nat -> nthZ (znx_rotate w p a) i = ext w a (Z.of_nat i - p).
+Proof.
+  intros Hi. unfold znx_rotate. cbv zeta.
+  set (n := Z.of_nat (length a)).
+  assert (Hn : 0 < n) by lia.
+  pose proof (Z.div_mod p (2 * n) ltac:(lia)) as Hdm.
+  pose proof (Z.mod_pos_bound p (2 * n) ltac:(lia)) as Hb2.
+  set (m2 := p mod (2 * n)) in *. set (t := p / (2 * n)) in *.
+  clearbody m2 t.
+  destruct (Z.ltb_spec m2 n) as [Hlt|Hge].
+  - (* m1 = m2: negate the wrapped-around head *)
+    rewrite (Z.mod_small m2 n) by lia.
+    set (s := Z.to_nat (n - m2)).
+    assert (Hs : (s <= length a)%nat) by lia.
+    assert (Hl1 : length (vneg w (skipn s a)) = Z.to_nat m2)
+      by (rewrite vneg_length, skipn_length; lia).
+    destruct (Z.ltb_spec (Z.of_nat i) m2) as [Hi2|Hi2].
+    + rewrite nthZ_app_l by lia. unfold vneg.
+      rewrite nthZ_map by (rewrite skipn_length; lia).
+      rewrite nthZ_skipn.
+      rewrite (ext_at_nat w a _ (- 2 * t - 1) (s + i)) by (fold n; lia).
+      replace (- 2 * t - 1) with (1 + 2 * (- t - 1)) by ring.
+      rewrite even_add_mul2. reflexivity.
+    + rewrite nthZ_app_r by lia. rewrite Hl1.
+      rewrite nthZ_firstn by lia.
+      rewrite (ext_at_nat w a _ (- 2 * t) (i - Z.to_nat m2)) by (fold n; lia).
+      replace (- 2 * t) with (0 + 2 * (- t)) by ring.
+      rewrite even_add_mul2. reflexivity.
+  - (* m1 = m2 - n: negate the tail *)
+    assert (Hm1 : m2 mod n = m2 - n).
+    { symmetry. apply (Z.mod_unique_pos m2 n 1 (m2 - n)); lia. }
+    rewrite Hm1.
+    set (s := Z.to_nat (n - (m2 - n))).
+    assert (Hs : (s <= length a)%nat) by lia.
+    assert (Hl1 : length (skipn s a) = Z.to_nat (m2 - n)) by (rewrite skipn_length; lia).
+    destruct (Z.ltb_spec (Z.of_nat i) (m2 - n)) as [Hi2|Hi2].
+    + rewrite nthZ_app_l by lia.
+      rewrite nthZ_skipn.
+      rewrite (ext_at_nat w a _ (- 2 * t - 2) (s + i)) by (fold n; lia).
+      replace (- 2 * t - 2) with (0 + 2 * (- t - 1)) by ring.
+      rewrite even_add_mul2. reflexivity.
+    + rewrite nthZ_app_r by lia. rewrite Hl1. unfold vneg.
+      rewrite nthZ_map by (rewrite firstn_length; lia).
+      rewrite nthZ_firstn by lia.
+      rewrite (ext_at_nat w a _ (- 2 * t - 1) (i - Z.to_nat (m2 - n))) by (fold n; lia).
+      replace (- 2 * t - 1) with (1 + 2 * (- t - 1)) by ring.
+      rewrite even_add_mul2. reflexivity.
+Qed.
+
+Theorem rotate_is_monomial_mul w p (a : list Z) :
+  znx_rotate w p a = monomial_mul w p a.
+Proof.
+  apply nthZ_ext; [rewrite rotate_length, monomial_mul_length; reflexivity|].
+  intros i Hi. rewrite rotate_length in Hi.
+  rewrite rotate_nth, monomial_mul_nth by auto. reflexivity.
+Qed.
+
+(* ---------- item 2 consequences on the code-shaped rotate ---------- *)
+Theorem rotate_compose w p q a :
+  1 <= w -> Forall (in_range w) a ->
+  znx_rotate w p (znx_rotate w q a) = znx_rotate w (p + q) a.
+Proof. intros. rewrite !rotate_is_monomial_mul. apply monomial_mul_compose; auto. Qed.
+
+Theorem rotate_inverse w p a :
+  1 <= w -> Forall (in_range w) a ->
+  znx_rotate w (- p) (znx_rotate w p a) = a.
+Proof.
+  intros. rewrite rotate_compose by auto. replace (- p + p) with 0 by ring.
+  rewrite rotate_is_monomial_mul. apply monomial_mul_0.
+Qed.
+
+Theorem rotate_n_neg w a : znx_rotate w (Z.of_nat (length a)) a = map (wneg w) a.
+Proof. rewrite rotate_is_monomial_mul. apply monomial_mul_n_neg. Qed.
+
+Theorem rotate_2n_id w a : znx_rotate w (2 * Z.of_nat (length a)) a = a.
+Proof. rewrite rotate_is_monomial_mul. apply monomial_mul_2n_id. Qed.
+
+Theorem rotate_mod_2n w p a :
+  znx_rotate w (p mod (2 * Z.of_nat (length a))) a = znx_rotate w p a.
+Proof. rewrite !rotate_is_monomial_mul. apply monomial_mul_mod. Qed.
+
+Lemma rotate_range w p a :
+  1 <= w -> Forall (in_range w) a -> Forall (in_range w) (znx_rotate w p a).
+Proof. intros. rewrite rotate_is_monomial_mul. apply monomial_mul_range; auto. Qed.
